@@ -9,6 +9,7 @@ variables put into a canonical order by colour refinement, so the form is indepe
 and of the order of independent statements.
 """
 from . import expr as X
+from .facts import walk
 
 M = 1 << 32
 
@@ -568,6 +569,15 @@ class Evaluator:
             op = n["op"]
             rhs = self.ev(n["ch"][1], env)
             lhs = X.strip(n["ch"][0])
+            if lhs.get("k") == "un" and lhs.get("op") == "*":
+                t0 = X.strip(lhs["ch"][0])
+                if t0 is not None and t0.get("k") == "ref" and isinstance(env.get(t0.get("d")), tuple) and env[t0["d"]][0] == "byref":
+                    br = env[t0["d"]]
+                    if op != "=":
+                        rhs = self.binop(op[:-1], br[2][br[1]], rhs, n, n["ch"][0], n["ch"][1])
+                    rhs = self.fit(rhs, br[3])
+                    br[2][br[1]] = rhs           # the store lands in the caller's variable
+                    return rhs
             if lhs.get("k") != "ref" or lhs.get("rk") not in ("param", "local"):
                 raise Unsupported("store to %s" % X.render(lhs))
             if op != "=":
@@ -597,6 +607,10 @@ class Evaluator:
             if op == "+":
                 return v
             if op == "*":
+                t0 = X.strip(n["ch"][0])
+                if t0 is not None and t0.get("k") == "ref" and isinstance(env.get(t0.get("d")), tuple) and env[t0["d"]][0] == "byref":
+                    br = env[t0["d"]]
+                    return br[2][br[1]]
                 w = n.get("tw")
                 if w is None:
                     raise Unsupported("deref of non-integer")
@@ -618,12 +632,35 @@ class Evaluator:
             # a value-returning helper of the same file whose arguments are plain values (one mixing round pulled out into a
             # function): evaluated in place.  Helpers that work through pointers to the caller's variables stay unsupported.
             g = self.fn.unit.functions.get(X.callee_name(n) or "") if getattr(self.fn, "unit", None) is not None else None
+            def byref_target(a):
+                sa = X.strip(a)
+                if sa is not None and sa.get("k") == "un" and sa.get("op") == "&":
+                    t = X.strip(sa["ch"][0])
+                    if t is not None and t.get("k") == "ref" and t.get("rk") in ("local", "param") and not t.get("tp") and t.get("d") in env:
+                        return t
+                return None
             if g is not None and g.body is not None and self.inline_depth < 3 and len(g.params) == len(n["ch"]) - 1 and \
-                    not any(X.strip(a).get("k") == "un" and X.strip(a).get("op") == "&" for a in n["ch"][1:]):
-                vals = [self.ev(a, env) for a in n["ch"][1:]]
+                    not any(X.strip(a).get("k") == "un" and X.strip(a).get("op") == "&" and byref_target(a) is None for a in n["ch"][1:]) and \
+                    not any(y.get("k") in ("for", "while", "do") for y in walk(g.body) if any(byref_target(a) is not None for a in n["ch"][1:])):
+                if any(byref_target(a) is not None for a in n["ch"][1:]):
+                    # stores through such a pointer must be unconditional in the helper (they are applied to the caller's
+                    # variables directly, not merged over the helper's branches)
+                    for y in walk(g.body):
+                        if (y.get("k") == "assign" or (y.get("k") == "un" and y.get("op") in ("++", "--"))) and (X.strip(y["ch"][0]) or {}).get("k") == "un":
+                            q = g.parent.get(y["i"])
+                            while q is not None:
+                                if q.get("k") in ("if", "switch", "cond", "for", "while", "do") or (q.get("k") == "bin" and q.get("op") in ("&&", "||")):
+                                    raise Unsupported("helper %s stores through a pointer parameter under a condition" % g.name)
+                                q = g.parent.get(q["i"])
                 env2 = {}
-                for p_, v_ in zip(g.params, vals):
-                    env2[p_["d"]] = self.fit(v_, p_) if not p_.get("tp") else v_
+                for p_, a_ in zip(g.params, n["ch"][1:]):
+                    t_ = byref_target(a_)
+                    if t_ is not None:
+                        # a pointer to one of the caller's integer variables (mix(&a, &b, &c)): *p in the helper IS that variable
+                        env2[p_["d"]] = ("byref", t_["d"], env, t_)
+                    else:
+                        v_ = self.ev(a_, env)
+                        env2[p_["d"]] = self.fit(v_, p_) if not p_.get("tp") else v_
                 saved_fn, saved_depth = self.fn, self.depth
                 self.fn = g
                 self.depth = 0
@@ -634,6 +671,8 @@ class Evaluator:
                     self.fn, self.depth = saved_fn, saved_depth
                     self.inline_depth -= 1
                 if "$ret" not in env2:
+                    if "void" in (g.j.get("ret") or "") and not ("*" in (g.j.get("ret") or "")):
+                        return const(0)
                     raise Unsupported("helper %s returns no value" % g.name)
                 return env2["$ret"]
         raise Unsupported("expression kind %s (%s)" % (k, X.render(n)[:40]))
@@ -733,6 +772,8 @@ class Evaluator:
             c = truth(self.ev(stmt["cond"], env))
             e1 = dict(env)
             e2 = dict(env)
+            e1["$assume"] = tuple(env.get("$assume", ())) + ((c, True),)       # inside an arm its test is known
+            e2["$assume"] = tuple(env.get("$assume", ())) + ((c, False),)
             self.run(stmt["then"], e1)
             if stmt.get("else") is not None:
                 self.run(stmt["else"], e2)
@@ -780,6 +821,18 @@ class Evaluator:
 
     def loop(self, stmt, env):
         k = stmt["k"]
+        if k == "do" and stmt.get("cond") is not None:
+            # do { B } while (++x < e): the increment belongs to the end of the body, the test reads the incremented x
+            c_ = X.strip(stmt["cond"])
+            if c_ is not None and c_.get("k") == "bin" and c_.get("op") in ("<", "<=", "!=", ">", ">="):
+                l_ = X.strip(c_["ch"][0])
+                if l_ is not None and l_.get("k") == "un" and l_.get("op") == "++" and not l_.get("post") and (X.strip(l_["ch"][0]) or {}).get("k") == "ref" \
+                        and not self.modified(c_["ch"][1]):
+                    newc = dict(c_)
+                    newc["ch"] = [l_["ch"][0], c_["ch"][1]]
+                    stmt = dict(stmt)
+                    stmt["body"] = {"k": "block", "i": stmt["body"]["i"], "ch": [stmt["body"], l_]}
+                    stmt["cond"] = newc
         mods = []
         for part in ("cond", "body", "inc"):
             if stmt.get(part) is not None:
